@@ -38,6 +38,9 @@ m = {
          "kind_free_text": "Verus 0.2026.09.13 on real functions extracted from /repo on every run (N-rules + woven contract overlays in vx/)"},
         {"name": "kani", "path": "lib/kani_engine.py", "serves_properties": sorted(p for p, s in registry.PROPERTIES.items() if s.get("kani_units") and p in T.CHECKS),
          "kind_free_text": "Kani 0.68 / CBMC 6.11 on a scratch copy of the workspace with harness modules (kc/) appended in-crate"},
+        {"name": "native", "path": "lib/native_engine.py", "serves_properties": sorted(p for p, s in registry.PROPERTIES.items() if s.get("native_units") and p in T.CHECKS),
+         "kind_free_text": "bounded stand-in only, never counted as proof: the Kani harnesses' triples (same oracles) executed natively on a scratch copy over "
+                           "stated enumerated domains (kn/), for sizes where CBMC does not finish (long sorts, block-wise scans)"},
     ],
     "checks": checks,
     "not_applicable": na,
